@@ -1520,13 +1520,19 @@ class PyCdlib:
         Returns:
          Nothing.
         """
+        # El Torito requires its Boot Record to be at extent 17, so the boot
+        # records come right after the first PVD, before any duplicate PVD.
         current_extent = 16
-        for pvd in self.pvds:
+        for pvd in self.pvds[:1]:
             pvd.set_extent_location(current_extent)
             current_extent += 1
 
         for br in self.brs:
             br.set_extent_location(current_extent)
+            current_extent += 1
+
+        for pvd in self.pvds[1:]:
+            pvd.set_extent_location(current_extent)
             current_extent += 1
 
         for svd in self.svds:
@@ -2896,6 +2902,7 @@ class PyCdlib:
 
         # First write out the PVDs.
         for pvd in self.pvds:
+            outfp.seek(pvd.extent_location() * self.logical_block_size)
             rec = pvd.record()
             self._outfp_write_with_check(outfp, rec)
             progress.call(len(rec))
